@@ -1011,9 +1011,12 @@ func (r *proxyStreamReceiver) sendAck(
 				lastSentMin := r.lastSentMin
 				lastExclusiveHighOriginal := r.lastExclusiveHighOriginal
 				r.ackMu.Unlock()
-				if !first && min >= lastSentMin {
+				// Nothing is acknowledged before this stream has received a message from the
+				// source: target shards may still report watermarks for tasks that were routed
+				// by a previous incarnation of this stream.
+				if !first && min >= lastSentMin && lastExclusiveHighOriginal > 0 {
 					// Clamp ACK to last known exclusive high watermark from source
-					if lastExclusiveHighOriginal > 0 && min > lastExclusiveHighOriginal {
+					if min > lastExclusiveHighOriginal {
 						r.logger.Warn("Aggregated ACK exceeds last source high watermark; clamping",
 							tag.NewInt64("ack_min", min),
 							tag.NewInt64("source_exclusive_high", lastExclusiveHighOriginal))
